@@ -148,7 +148,7 @@ impl<'a> Printer<'a> {
         } else if s.starts_with('(') && s.ends_with(')') && matches!(e, Expr::Call { .. } | Expr::StdCall { .. } | Expr::If { .. } | Expr::Case { .. }) {
             s // already wrapped
         } else {
-            format!("({})", s)
+            format!("({})", self.brk(&s, lvl))
         }
     }
 
@@ -182,14 +182,33 @@ impl<'a> Printer<'a> {
 
     fn maybe_redundant_parens(&self, s: String, key: u64) -> String {
         if self.lay(key ^ 0x5151, 6) == 1 {
-            format!("({})", s)
+            format!("({})", self.brk(&s, 0))
+        } else {
+            s
+        }
+    }
+
+    /// A binary operator marks the places next to it where a line break is allowed once the expression
+    /// stands inside brackets (`\u{1}`: before the operator, `\u{2}`: after it). Whoever wraps the text in
+    /// brackets turns the marks into line breaks (`brk`); text that ends up outside brackets gets spaces (`flat`).
+    fn brk(&self, s: &str, lvl: usize) -> String {
+        if !s.contains(|c| c == '\u{1}' || c == '\u{2}') {
+            return s.to_string();
+        }
+        let nl = format!("\n{}", self.ind(lvl + 2));
+        s.replace('\u{1}', &nl).replace('\u{2}', &nl)
+    }
+
+    fn flat(s: String) -> String {
+        if s.contains(|c| c == '\u{1}' || c == '\u{2}') {
+            s.replace('\u{1}', " ").replace('\u{2}', " ")
         } else {
             s
         }
     }
 
     fn args(&self, args: &[Expr], lvl: usize, key: u64) -> String {
-        let parts: Vec<String> = args.iter().map(|a| self.expr(a, lvl + 1)).collect();
+        let parts: Vec<String> = args.iter().map(|a| self.brk(&self.expr(a, lvl + 1), lvl)).collect();
         if !parts.is_empty() && self.lay(key ^ 0xa7a7, 5) == 1 {
             // line breaks inside brackets
             let i = self.ind(lvl + 1);
@@ -239,7 +258,8 @@ impl<'a> Printer<'a> {
                 if stmt_pos {
                     s
                 } else {
-                    format!("({})", s)
+                    // inside the parentheses an argument may continue on the next line
+                    format!("({})", self.brk(&s, lvl))
                 }
             }
             CallForm::Arrow => {
@@ -248,7 +268,7 @@ impl<'a> Printer<'a> {
                 if stmt_pos {
                     s
                 } else {
-                    format!("({})", s)
+                    format!("({})", self.brk(&s, lvl))
                 }
             }
             CallForm::ArrowPrime => {
@@ -258,7 +278,7 @@ impl<'a> Printer<'a> {
                 if stmt_pos {
                     s
                 } else {
-                    format!("({})", s)
+                    format!("({})", self.brk(&s, lvl))
                 }
             }
         }
@@ -283,7 +303,12 @@ impl<'a> Printer<'a> {
             Expr::Var(b) => self.var(*b),
             Expr::SelfRef(_) => "self".into(),
             Expr::Bin(op, a, b) => {
-                let s = format!("{} {} {}", self.bin_operand(*op, a, true, lvl), op.text(), self.bin_operand(*op, b, false, lvl));
+                let (l, r) = (self.bin_operand(*op, a, true, lvl), self.bin_operand(*op, b, false, lvl));
+                let s = match self.lay(hash64(format!("{:?}{}", op, l.len() + 3 * r.len()).as_bytes()) ^ 0x6b6b, 5) {
+                    1 => format!("{}\u{1}{} {}", l, op.text(), r),
+                    2 => format!("{} {}\u{2}{}", l, op.text(), r),
+                    _ => format!("{} {} {}", l, op.text(), r),
+                };
                 self.maybe_redundant_parens(s, hash64(format!("{:?}", op).as_bytes()) ^ lvl as u64)
             }
             Expr::AssertEq(a, b) => format!("{} <=> {}", self.operand(a, lvl), self.operand(b, lvl)),
@@ -313,7 +338,7 @@ impl<'a> Printer<'a> {
                 let mut s = String::new();
                 for (i, (c, b)) in branches.iter().enumerate() {
                     s.push_str(if i == 0 { "if " } else { "elif " });
-                    s.push_str(&self.expr(c, lvl));
+                    s.push_str(&Self::flat(self.expr(c, lvl)));
                     s.push_str(" do\n");
                     s.push_str(&self.block(b, lvl + 1, false));
                     s.push_str(&self.ind(lvl));
@@ -331,7 +356,7 @@ impl<'a> Printer<'a> {
                 }
             }
             Expr::Case { scrut, arms, els, .. } => {
-                let mut s = format!("case {} do\n", self.expr(scrut, lvl));
+                let mut s = format!("case {} do\n", Self::flat(self.expr(scrut, lvl)));
                 for a in arms {
                     s.push_str(&self.ind(lvl + 1));
                     s.push_str(&a.variant);
@@ -361,7 +386,7 @@ impl<'a> Printer<'a> {
             }
             Expr::Tuple(xs) => {
                 if xs.len() == 1 {
-                    format!("({},)", self.expr(&xs[0], lvl))
+                    format!("({},)", self.brk(&self.expr(&xs[0], lvl), lvl))
                 } else {
                     format!("({})", self.args(xs, lvl, xs.len() as u64 ^ 0x77))
                 }
@@ -456,7 +481,7 @@ impl<'a> Printer<'a> {
             if use_ret {
                 s.push_str("ret ");
             }
-            s.push_str(&self.expr_pos(v, lvl, !use_ret));
+            s.push_str(&Self::flat(self.expr_pos(v, lvl, !use_ret)));
             s.push('\n');
         }
         s
@@ -492,6 +517,10 @@ impl<'a> Printer<'a> {
     }
 
     pub fn stmt(&self, st: &Stmt, lvl: usize) -> String {
+        Self::flat(self.stmt_marked(st, lvl))
+    }
+
+    fn stmt_marked(&self, st: &Stmt, lvl: usize) -> String {
         let i = self.ind(lvl);
         match st {
             Stmt::Def { b, init } => self.def_line(*b, init, lvl),
@@ -559,7 +588,7 @@ impl<'a> Printer<'a> {
         match it {
             Item::Blob(b) => self.blob_decl(*b),
             Item::Enum(e) => self.enum_decl(*e),
-            Item::Global { b, init } => self.def_line(*b, init, 0),
+            Item::Global { b, init } => Self::flat(self.def_line(*b, init, 0)),
             Item::Raw(t) => t.clone(),
         }
     }
